@@ -97,7 +97,59 @@ def _override_specs(rng, ir, uni, n):
     return out
 
 
+LOGGER_URL = "file:///sim/schema/logger-app.xml"
+
+
+def generate_logger(rng, tier, index):
+    """Stratum: the shipped logger component as the schema.  A history of
+    loads of 2..4 different logging configurations (accepted and refused
+    ones, formats of every style, arbitrary-fields on and off), each text
+    usually several times; no factory is ever called (nothing is opened)."""
+    from zcsim.props import c20
+    texts = []
+
+    def fld(name, conv="s", fv=0):
+        return {"t": "field", "name": name, "conv": conv, "width": "",
+                "fvariant": fv, "braced": True}
+    for k in range(rng.randint(2, 4)):
+        if rng.random() < 0.3:
+            p20 = c20.generate(rng, tier, index)
+            texts.append(c20.config_text(p20, "/sim/logs"))
+            continue
+        # one logger, one handler; what varies is the format, its style and
+        # arbitrary-fields -- the part of the component that keeps state
+        # while a configuration is being checked
+        style = rng.choice(["classic", "format", "template",
+                            "safe-template"])
+        kind = rng.choice(["good", "unknown", "unknown", "bad", "bad",
+                           "positional"])
+        toks = [fld("levelname"), {"t": "lit", "s": " "}]
+        if kind == "unknown":
+            toks.append(fld("zzfield"))
+        elif kind == "bad":
+            toks.append(fld("message", conv="d", fv=3))
+        elif kind == "positional":
+            toks.append({"t": "positional", "p": rng.choice(["{}", "{0}"])})
+        toks += [{"t": "lit", "s": " "}, fld("message")]
+        h = {"path": rng.choice(["STDOUT", "STDERR", "c13-%d.log" % k]),
+             "style": style, "format": toks}
+        r = rng.random()
+        if r < 0.45:
+            h["arbitrary"] = rng.choice(c20.BOOL_TRUE)
+        elif r < 0.6:
+            h["arbitrary"] = rng.choice(c20.BOOL_FALSE)
+        p20 = {"loggers": [{"kind": "logger", "name": "zcsim.c13.l%d" % k,
+                            "level": None, "handlers": [h]}]}
+        texts.append(c20.config_text(p20, "/sim/logs"))
+    n = rng.randint(3, 8)
+    hist = [rng.randrange(len(texts)) for _ in range(n)]
+    return {"prop": ID, "kind": "logger", "schema_xml": c20.SCHEMA,
+            "texts": texts, "ops": [{"op": "load", "text": i} for i in hist]}
+
+
 def generate(rng, tier, index):
+    if rng.random() < 0.12:
+        return generate_logger(rng, tier, index)
     sc = scenarios.config_scenario(rng, {"imports": 0.6, "callbacks": True,
                                          "handlers": False})
     ir = sc["ir"]
@@ -286,8 +338,23 @@ def _same(a, b):
         return False
     if a["ok"]:
         return a["tree"] == b["tree"] and a["nhandlers"] == b["nhandlers"]
-    return (a["cls"], a.get("lineno"), a.get("url"), a.get("value")) == \
-        (b["cls"], b.get("lineno"), b.get("url"), b.get("value"))
+    return (a["cls"], a.get("lineno"), a.get("url"), a.get("value"),
+            _msg(a)) == \
+        (b["cls"], b.get("lineno"), b.get("url"), b.get("value"), _msg(b))
+
+
+_ADDR = None
+
+
+def _msg(o):
+    """The error text the user gets, with object addresses taken out: it is
+    part of the outcome of a rejected load (same code, same input, same
+    schema text => same words)."""
+    global _ADDR
+    if _ADDR is None:
+        import re
+        _ADDR = re.compile(r"0x[0-9a-fA-F]+")
+    return _ADDR.sub("0x?", o.get("msg") or "")
 
 
 def _fresh_schema(w, plan):
@@ -298,7 +365,96 @@ def _fresh_schema(w, plan):
     return so
 
 
+def execute_logger(plan):
+    """History of loads against ONE schema object that imports the shipped
+    logger component, each load also against a freshly loaded copy; the same
+    text must get the same verdict (and the same words) every time."""
+    import io
+    import logging
+    out = {"evaluations": 0, "digests": [], "fired": {}, "probes": {},
+           "violations": [], "waste": 0, "log": []}
+
+    def violation(clause, what, detail, step):
+        focused = dict(plan)
+        focused["ops"] = plan["ops"][:step + 1]
+        out["violations"].append({
+            "sig": "C13|%s|%s" % (clause, what),
+            "key": {"clause": clause, "what": what},
+            "detail": "step %d (logger component): %s" % (step, detail),
+            "plan": focused})
+
+    def load(schema, text):
+        def run():
+            cfg, handler = ZConfig.loadConfigFile(
+                schema, io.StringIO(text), "file:///sim/logs/app.conf")
+            return {"ok": True, "nhandlers": len(handler),
+                    "tree": {"loggers": len(cfg.loggers),
+                             "eventlog": cfg.eventlog is not None}}
+        return ops.guarded(run)
+
+    saved = (logging.root.handlers[:], logging.root.level,
+             dict(logging.Logger.manager.loggerDict))
+    try:
+        with SimWorld() as w:
+            w.begin_op("load-schema")
+            so = ops.schema_outcome(lambda: ops.load_schema_text(
+                plan["schema_xml"], LOGGER_URL))
+            w.end_op("ok" if so["ok"] else so["cls"])
+            if not so["ok"]:
+                raise RuntimeError("logger schema: " + ops.brief(so))
+            s_hist, digest0 = so["schema"], so["digest"]
+            seen = {}
+            rejected = 0
+            for step, op in enumerate(plan["ops"]):
+                text = plan["texts"][op["text"]]
+                w.begin_op("hist-load")
+                oh = load(s_hist, text)
+                w.end_op("ok" if oh["ok"] else oh["cls"])
+                w.begin_op("fresh-schema")
+                fs = ops.schema_outcome(lambda: ops.load_schema_text(
+                    plan["schema_xml"], LOGGER_URL))
+                w.end_op("ok")
+                w.begin_op("fresh-load")
+                of = load(fs["schema"], text)
+                w.end_op("ok" if of["ok"] else of["cls"])
+                out["evaluations"] += 2
+                rejected += not oh["ok"]
+                out["log"].append("step %d text %d: hist %s | fresh %s" % (
+                    step, op["text"], ops.brief(oh), ops.brief(of)))
+                if not _same(oh, of):
+                    violation("history-vs-fresh", "logger",
+                              "reused schema: %s ; fresh schema: %s"
+                              % (ops.brief(oh), ops.brief(of)), step)
+                if op["text"] in seen:
+                    out["probes"]["repeated-load"] = out["probes"].get(
+                        "repeated-load", 0) + 1
+                    if not _same(seen[op["text"]], oh):
+                        violation("repeat-differs", "logger",
+                                  "the same text gave %s earlier in the "
+                                  "history and %s now" % (
+                                      ops.brief(seen[op["text"]]),
+                                      ops.brief(oh)), step)
+                else:
+                    seen[op["text"]] = oh
+                if canon.digest_diff(digest0, canon.schema_digest(s_hist)):
+                    violation("schema-changed", "logger-description",
+                              "description of the schema changed", step)
+            out["probes"]["logger-component-history"] = 1
+            if rejected and rejected < len(plan["ops"]):
+                h = hashlib.sha256(json.dumps(
+                    [plan["texts"], plan["ops"]]).encode())
+                out["digests"].append(h.hexdigest()[:16])
+    finally:
+        logging.root.handlers[:] = saved[0]
+        logging.root.setLevel(saved[1])
+        logging.Logger.manager.loggerDict.clear()
+        logging.Logger.manager.loggerDict.update(saved[2])
+    return out
+
+
 def execute(plan):
+    if plan.get("kind") == "logger":
+        return execute_logger(plan)
     out = {"evaluations": 0, "digests": [], "fired": {}, "probes": {},
            "violations": [], "waste": 0, "log": []}
 
@@ -461,7 +617,27 @@ def _strip_leak(d0, d1, plan):
 
 # ---------------------------------------------------------------------------
 
+def shrink_logger(plan):
+    ops_ = plan["ops"]
+    for i in range(len(ops_) - 1, -1, -1):
+        if len(ops_) > 1:
+            new = dict(plan)
+            new["ops"] = ops_[:i] + ops_[i + 1:]
+            yield new
+    for ti, t in enumerate(plan["texts"]):
+        ls = t.split("\n")
+        for i in range(len(ls)):
+            new = dict(plan)
+            new["texts"] = (plan["texts"][:ti]
+                            + ["\n".join(ls[:i] + ls[i + 1:])]
+                            + plan["texts"][ti + 1:])
+            yield new
+
+
 def shrink(plan):
+    if plan.get("kind") == "logger":
+        yield from shrink_logger(plan)
+        return
     ops_ = plan["ops"]
     for i in range(len(ops_) - 1, -1, -1):
         new = dict(plan)
@@ -511,6 +687,10 @@ def shrink(plan):
 
 
 def sample(plan):
+    if plan.get("kind") == "logger":
+        return {"kind": "logger-component history",
+                "texts": [t.splitlines() for t in plan["texts"]],
+                "ops": plan["ops"]}
     return {"ops": plan["ops"],
             "texts": [{"top": t["top"], "resources": t["res"]}
                       for t in plan["texts"]],
